@@ -85,8 +85,62 @@ def build(tag):
         return _built[tag]
 
 
+_watch_cache = {}
+
+
+def watch_symbols(tag):
+    """M6: writable statics (.data/.bss, not .data.rel.ro) and TLS objects whose demangled name
+    contains rl2tp::, for the linked worker of a native build. Returns (VP_WATCH, VP_TLS, names)."""
+    if tag in _watch_cache:
+        return _watch_cache[tag]
+    cmd, _ = build(tag)
+    exe = cmd[0]
+    res = ("", "", [])
+    try:
+        rc, secs = sh(["readelf", "-SW", exe], timeout=120)
+        secname = {}
+        for m in re.finditer(r"^\s*\[\s*(\d+)\]\s+(\S+)", secs, re.M):
+            secname[int(m.group(1))] = m.group(2)
+        rc, syms = sh(["readelf", "-sW", "--demangle", exe], timeout=120)
+        if "rl2tp" not in syms:
+            rc, syms = sh(["readelf", "-sW", exe], timeout=120)
+        items, names = [], []
+        for line in syms.splitlines():
+            f = line.split(None, 7)
+            if len(f) < 8 or not f[0].rstrip(":").isdigit():
+                continue
+            value, size, typ, ndx, name = f[1], f[2], f[3], f[6], f[7]
+            if "rl2tp" not in name or not ndx.isdigit():
+                continue
+            sec = secname.get(int(ndx), "")
+            try:
+                size_i = int(size, 0)
+            except ValueError:
+                continue
+            if typ == "TLS":
+                items.append("T:%s:%d:%s" % (value, size_i, name.replace(";", ",").replace(":", ".")[:120]))
+                names.append("tls " + name[:100])
+            elif typ == "OBJECT" and sec in (".data", ".bss"):
+                items.append("S:%s:%d:%s" % (value, size_i, name.replace(";", ",").replace(":", ".")[:120]))
+                names.append("static " + name[:100])
+        rc, ph = sh(["readelf", "-lW", exe], timeout=120)
+        tls = ""
+        m = re.search(r"^\s*TLS\s+0x[0-9a-f]+\s+0x[0-9a-f]+\s+0x[0-9a-f]+\s+0x[0-9a-f]+\s+(0x[0-9a-f]+)\s+\S+\s+(0x[0-9a-f]+|\d+)", ph, re.M)
+        if m:
+            tls = "%d:%d" % (int(m.group(1), 16), int(m.group(2), 0))
+        res = (";".join(items), tls, names)
+    except Exception as e:  # tool missing: the monitor is simply not armed
+        res = ("", "", ["<symbol scan failed: %s>" % e])
+    _watch_cache[tag] = res
+    return res
+
+
 def worker_env(tag):
     env = dict(ENV_BASE)
+    if tag in ("dbg", "rel"):
+        w, tls, _ = watch_symbols(tag)
+        env["VP_WATCH"] = w
+        env["VP_TLS"] = tls
     if tag == "miri":
         env["MIRIFLAGS"] = "-Zmiri-disable-isolation"
     if tag == "asan":
@@ -536,7 +590,7 @@ def _check(prop, tier, seed, rundir, t_start):
         "distinct_nontrivial": distinct,
         "rule": rule_for(prop) + " Counting: " + how + ". Every case is executed in the debug-assertions build and the release build (evaluations counts both).",
         "samples": merged.samples[:8],
-        "exhaustive": False,
+        "exhaustive": bool(exhaustive_streams) and set(exhaustive_streams) == {s_["name"] for s_ in worker_meta(prop, tier)["streams"] if s_["count"] > 0} and all(s_["exhaustive"] for s_ in worker_meta(prop, tier)["streams"] if s_["count"] > 0),
         "exhaustive_streams": exhaustive_streams,
         "evaluations_by_build": merged.evaluations,
         "nontrivial_by_build": merged.nontrivial,
@@ -755,17 +809,13 @@ def c19_extra(tier, seed, rundir, merged, hard, inconclusive, extra_cov, stages)
             entry["partitions_agree"] = "not compared (a worker died; totality is that property's finding)"
         broad[bp] = entry
     extra_cov["broad_workloads"] = broad
-    # (4) writable rl2tp:: symbols in the linked worker (M6)
-    cmd, _ = build("rel")
-    rc, out = sh(["nm", "-C", cmd[0]], timeout=120)
-    writable = []
-    if rc == 0:
-        for line in out.splitlines():
-            parts = line.split(None, 2)
-            if len(parts) == 3 and parts[1] in ("b", "B", "d", "D") and "rl2tp::" in parts[2]:
-                writable.append(parts[2][:120])
-    extra_cov["writable_segment_monitor"] = {"writable_rl2tp_symbols": writable[:20], "count": len(writable),
-                                             "note": "presence is reported, not judged; retained state would show in the history / heap monitors"}
+    # (4) M6: writable rl2tp:: statics / thread-locals of the linked workers (snapshotted by the
+    # "statics" stream of the worker at quiescent points; listed here)
+    wm = {}
+    for tag in ("dbg", "rel"):
+        _, tls, names = watch_symbols(tag)
+        wm[tag] = {"watched_objects": names[:20], "count": len(names), "tls_segment(memsz:align)": tls}
+    extra_cov["writable_segment_monitor"] = wm
 
 
 # ---------------------------------------------------------------------------------------------
